@@ -486,14 +486,24 @@ func parsePackageOnlyAnnotation(commentText string, objectName string, pos token
 // Returns: (kind, receiverType)
 // - For methods: (TestOnlyOnMethod, "MyStruct")
 // - For functions: (TestOnlyOnFunc, "")
-func getFuncKindAndReceiver(funcDecl *ast.FuncDecl) (TestOnlyKind, string) {
+func getFuncKindAndReceiver(pass *analysis.Pass, funcDecl *ast.FuncDecl) (TestOnlyKind, string) {
 	if funcDecl.Recv != nil && len(funcDecl.Recv.List) > 0 {
 		// It's a method
-		receiverType := ExtractReceiverType(funcDecl.Recv.List[0].Type)
-		return TestOnlyOnMethod, receiverType
+		return TestOnlyOnMethod, ReceiverTypeName(pass, funcDecl.Recv.List[0].Type)
 	}
 	// It's a function
 	return TestOnlyOnFunc, ""
+}
+
+// ReceiverTypeName returns the name of the defined type a method is declared on, however the
+// receiver type is spelled (alias, parentheses, type parameters)
+func ReceiverTypeName(pass *analysis.Pass, expr ast.Expr) string {
+	if pass != nil && pass.TypesInfo != nil {
+		if name := util.ExtractTypeName(pass.TypesInfo.TypeOf(expr)); name != "" {
+			return name
+		}
+	}
+	return ExtractReceiverType(expr)
 }
 
 // ExtractReceiverType extracts the receiver type name from a receiver type expression
@@ -647,7 +657,7 @@ func ReadAllAnnotations(
 			pos := funcDecl.Pos()
 
 			// Determine if it's a method or function
-			kind, receiverType := getFuncKindAndReceiver(funcDecl)
+			kind, receiverType := getFuncKindAndReceiver(pass, funcDecl)
 
 			for _, comment := range funcDecl.Doc.List {
 				text := comment.Text
